@@ -17,7 +17,7 @@ import (
 
 func TestMain(m *testing.M) { ev.Main(m) }
 
-const rule = "case = a history: an initial module example.com/m (dep; mid imports dep; top imports mid and optionally dep; 17 toggles drawn for the initial tree, optionally a staticcheck.conf and non-default flags) followed by <= N actions drawn from {RUN; toggle one of 17 triggers (4 of them flip a fact exported by dep - deprecation of a function / of a method reached through mid only, purity, nilness - without changing dep's API, line numbers or export data; others: padding lines, body-only edit, type error in dep, triggers in mid and in the target file, dot-import file, in-package and external test files, files behind //go:build special and _windows.go); write/remove staticcheck.conf at parent dir | module root | dep | mid | top (checks, initialisms, dot_import_whitelist, http_status_code_whitelist, each absent or from a menu with and without \"inherit\"; 5% invalid TOML); set -go (module, 1.22..1.26) | -tags special | -tests | -checks | GOOS (linux, windows); change the go directive of go.mod; revert tree and/or flags to the state of an earlier run; touch a file (mtime or rewrite, same bytes)}; the first and the last action are RUN. Every RUN executes the real staticcheck binary twice on ./... with -f json: with the persistent STATICCHECK_CACHE of the history and with a cache holding nothing about the module; stdout as a sorted multiset of lines and the exit status must be equal. non-trivial = the history contains a RUN in which the persistent cache served >= 1 package of the module (no analyzer measurement for it in -debug.measure-analyzers) after the cold output had changed between two runs of the history; distinct by hash of the whole history"
+const rule = "case = a history: an initial module example.com/m (dep; mid imports dep; top imports mid and optionally dep; 17 toggles drawn for the initial tree, optionally a staticcheck.conf and non-default flags) followed by <= N actions drawn from {RUN; toggle one of 17 triggers (4 of them flip a fact exported by dep - deprecation of a function / of a method reached through mid only, purity, nilness - without changing dep's API, line numbers or export data; others: padding lines, body-only edit, type error in dep, triggers in mid and in the target file, dot-import file, in-package and external test files, files behind //go:build special and _windows.go); write/remove staticcheck.conf at parent dir | module root | dep | mid | top (checks, initialisms, dot_import_whitelist, http_status_code_whitelist, each absent or from a menu with and without \"inherit\"; 5% invalid TOML); set -go (module, 1.23..1.26) | -tags special | -tests | -checks | GOOS (linux, windows); change the go directive of go.mod; revert tree and/or flags to the state of an earlier run; touch a file (mtime or rewrite, same bytes)}; the first and the last action are RUN. Every RUN executes the real staticcheck binary twice on ./... with -f json: with the persistent STATICCHECK_CACHE of the history and with a cache holding nothing about the module; stdout as a sorted multiset of lines and the exit status must be equal. non-trivial = the history contains a RUN in which the persistent cache served >= 1 package of the module (no analyzer measurement for it in -debug.measure-analyzers) after the cold output had changed between two runs of the history; distinct by hash of the whole history"
 
 func jsonMarshal(v any) ([]byte, error) { return json.Marshal(v) }
 
@@ -34,7 +34,7 @@ func TestHistories(t *testing.T) {
 	ev.Rule(rule)
 	ev.Assume("the cold reference run does not start from a literally empty directory but from a copy of a 'std base' cache: the result of linting a different module (example.com/warm, same standard-library imports, same -go and GOOS) with the same binary. Cache keys contain the package path, so the base holds no entry for any package of the module under test; those are always analysed from scratch in the reference run (checked: every module package must appear in the analyzer measurements of the cold run or the run is counted). The persistent cache receives the same base before the first run with a given (-go, GOOS); this is a history in which the user linted another module before")
 	ev.Assume("the Go build cache (GOCACHE) is shared by both runs and is not under test; CGO_ENABLED=0, GOFLAGS=-mod=mod, GOMAXPROCS=4 for every run; GODEBUG and GOCACHEPROG are removed from the environment")
-	ev.Assume("-go stays >= 1.22: with lower values the standard library itself fails to type-check on this toolchain (known finding of C20)")
+	ev.Assume("-go stays >= 1.23: with lower values the standard library itself fails to type-check on this toolchain (known finding std-fails-under-low-go-flag of C20; with -go 1.22 it is reflect, slices and go/build/constraint, imported by every test binary, that fail with \"requires go1.23 or later\")")
 	ev.Assume("only stdout (the problems) and the exit status are compared; stderr (warnings) differences are counted")
 	ev.Assume("if warm and cold differ, the cold run is repeated with another fresh cache; if the two cold runs differ from each other the case is counted as cold_output_not_deterministic and not judged")
 	maxSteps := ev.EnvInt("C04_STEPS", 6, 10)
@@ -93,14 +93,12 @@ func replayFile(t *testing.T, f, test string) {
 }
 
 func TestCorpus(t *testing.T) {
-	if os.Getenv("VERIF_SECONDARY") != "" {
-		return
-	}
+	// every history costs several staticcheck runs: the files are spread over the shards
 	files, _ := filepath.Glob(filepath.Join(os.Getenv("VERIF_ROOT"), "corpus", "C04", "*.json"))
 	sort.Strings(files)
-	for _, f := range files {
-		if ev.PastDeadline() {
-			break
+	for i, f := range files {
+		if i%ev.NShards() != ev.Shard() {
+			continue
 		}
 		replayFile(t, f, "TestCorpus")
 	}
